@@ -135,6 +135,8 @@ def grid_writers(repo):
                         root, depth = root.value, depth + 1
                     if isinstance(root, ast.Attribute) and root.attr == 'w' and is_name(root.value, 'self') and depth >= 1:
                         hit = st
+                    elif isinstance(root, ast.Name) and depth >= 1 and ctext(root, f, stale_ok=True) == 'self.w':
+                        hit = st          # through a local that holds the grid (`w = self.w`)
             if hit is not None and f not in [x for x, _ in out]:
                 out.append((f, hit))
     return out
